@@ -83,6 +83,13 @@ def gen_table(rng, maxn=10, streams=("v1", "v2"), axes=None, index_kind=None):
         ax["lat"] = [F(40) + F(i, 64) for i in range(n)]
         ax["lon"] = [F(-70) + F(rng.randint(0, 8), 64) for i in range(n)]
     index_kind = index_kind or rng.choice(["range", "range", "shifted", "permuted", "labels"])
+    if n >= 3 and rng.random() < 0.2:
+        # rows not in time order (a back-filled batch appended at the end): distinct instants, any order
+        k = rng.randint(1, n - 1)
+        order = list(range(k, n)) + list(range(k))
+        t = [t[i] for i in order]
+        cols = {s_: [v[i] for i in order] for s_, v in cols.items()}
+        ax = {a_: [v[i] for i in order] for a_, v in ax.items()}
     return {"n": n, "t": t, "cols": cols, "axes": ax, "index_kind": index_kind}
 
 
@@ -119,14 +126,19 @@ def make_df(tab):
     return pd.DataFrame(d, index=table_index(tab))
 
 
-def make_ds(tab):
-    coords = {"time": times_ns(tab)}
+def make_ds(tab, layout="time_dim"):
+    """`time_dim`: time is the dimension coordinate; `obs_dim`: CF observation axis — every variable on dimension `obs`,
+    time an auxiliary (non-index) coordinate."""
+    dim = "time" if layout == "time_dim" else "obs"
     dv = {}
     for a, v in tab["axes"].items():
-        dv[a] = (("time",), fl(v))
+        dv[a] = ((dim,), fl(v))
     for s, v in tab["cols"].items():
-        dv[s] = (("time",), fl(v))
-    return xr.Dataset(dv, coords=coords)
+        dv[s] = ((dim,), fl(v))
+    if layout == "time_dim":
+        return xr.Dataset(dv, coords={"time": times_ns(tab)})
+    dv["time"] = ((dim,), times_ns(tab))
+    return xr.Dataset(dv).set_coords("time")
 
 
 # ---------------------------------------------------------------------------------------------
@@ -140,7 +152,7 @@ def window_layout(rng, tab, kind=None):
     if n == 0 or kind == "none":
         return [(None, None)]
     lo, hi = t[0], t[-1] + 1
-    cut = lambda: t[rng.randrange(n)] + rng.choice([0, 0, 0, 1, -1])  # noqa: E731
+    cut = lambda: t[rng.randrange(n)] + rng.choice([0, 0, 0, 1, -1, F(1, 2), -F(1, 2)])  # noqa: E731
     if kind == "all":
         return [(lo - 5, hi + 5)]
     if kind == "split2":
@@ -166,7 +178,19 @@ def window_layout(rng, tab, kind=None):
 
 
 def iso(sec):
-    return sut.iso(sec)
+    """ISO text of an instant in seconds (whole, or a Fraction with a half second)."""
+    f = F(sec)
+    if f.denominator == 1:
+        return sut.iso(int(f))
+    import datetime as dt
+    return (dt.datetime(1970, 1, 1) + dt.timedelta(seconds=int(f // 1), microseconds=int((f % 1) * 1_000_000))).isoformat()
+
+
+def spec_masks(drv, tab, wins):
+    """IoosQc.specMask for every window; instants travel in half seconds so that bounds between two rows are integers."""
+    sc2 = lambda v: None if v is None else int(F(v) * 2)  # noqa: E731
+    a, = drv.run([{"kind": "window", "t": [int(t) * 2 for t in tab["t"]], "windows": [[sc2(w[0]), sc2(w[1])] for w in wins]}])
+    return a["spec"]
 
 
 def test_params(rng, tab, test):
@@ -194,7 +218,17 @@ def test_params(rng, tab, test):
     if test == "valid":
         return "axds", "valid_range_test", {"valid_span": [1, 25]}
     if test == "probe":
-        return "qartod", "_verif_probe", {"tag": rng.randint(0, 99)}
+        kw = {"tag": rng.randint(0, 99)}
+        # configured keywords that collide with what a stream passes, and one the function does not take
+        # (Call.run: the stream's value wins, unknown keywords are dropped — IoosQc.C05_call_kwargs)
+        if rng.random() < 0.4:
+            kw["zinp"] = [-5.0, -6.0]
+        if rng.random() < 0.3:
+            kw["lat"] = [-7.0]
+            kw["lon"] = [-8.0]
+        if rng.random() < 0.4:
+            kw["bogus_keyword"] = 1
+        return "qartod", "_verif_probe", kw
     if test == "aggregate":
         return "qartod", "aggregate", None
     raise ValueError(test)
@@ -228,6 +262,21 @@ def gen_config(rng, tab, max_tests=3, windows=None, tests=None):
     return ctxs
 
 
+def window_bound(sec):
+    """A window bound (seconds, possibly on a half second) in one of the forms a caller may write it: Timestamp,
+    ISO string, datetime, numpy datetime64 — the form varies with the value."""
+    ns = int(F(sec) * 1_000_000_000)
+    form = (ns // 500_000_000) % 4
+    ts = pd.Timestamp(ns, unit="ns")
+    if form == 0:
+        return ts
+    if form == 1:
+        return iso(sec)
+    if form == 2:
+        return ts.to_pydatetime()
+    return np.datetime64(ns, "ns")
+
+
 def config_dict(ctxs, with_contexts=None):
     """ioos_qc config mapping for the logical contexts."""
     out = []
@@ -237,9 +286,9 @@ def config_dict(ctxs, with_contexts=None):
         if a is not None or b is not None:
             w = {}
             if a is not None:
-                w["starting"] = pd.Timestamp(a, unit="s")
+                w["starting"] = window_bound(a)
             if b is not None:
-                w["ending"] = pd.Timestamp(b, unit="s")
+                w["ending"] = window_bound(b)
             d["window"] = w
         for sid, tests in c["streams"].items():
             for (_key, module, name, kw) in tests:
@@ -269,6 +318,10 @@ def run_frontend(fe, tab, cfg_dict, tmpdir=None, twice=False):
             st = NumpyStream(**kw)
         elif fe == "xarray":
             st = XarrayStream(make_ds(tab))
+        elif fe == "xarray_obs":
+            st = XarrayStream(make_ds(tab, "obs_dim"))
+        elif fe == "netcdf_obs":
+            st = NetcdfStream(make_ds(tab, "obs_dim"))
         elif fe == "netcdf":
             st = NetcdfStream(make_ds(tab))
         elif fe in ("netcdf_file", "xarray_file"):
